@@ -642,7 +642,7 @@ class Tally(StatisticsInterface):
             variance = self.variance()
             if not variance > 0.0:
                 return math.nan
-            skew_biased = (self._m3 / n) / variance ** 1.5 
+            skew_biased = (self._m3 / n) / variance / math.sqrt(variance)
             if biased:
                 return skew_biased
             elif n > 2:
